@@ -17,7 +17,8 @@ def make(tier, seed):
 
 
 OPTS = [None, None, {"relativize": False}, {"fit_to_screen": False}, {"video_width": 640, "video_height": 360},
-        {"video_width": 640, "video_height": 360, "fit_to_screen": False}, {"relativize": False, "fit_to_screen": False}]
+        {"video_width": 640, "video_height": 360, "fit_to_screen": False}, {"relativize": False, "fit_to_screen": False},
+        {"video_width": 400, "video_height": 400}]          # a square frame: width and height are the same number
 
 
 def pristine(jobs, hashseed):
@@ -71,7 +72,9 @@ def explore(chk):
         if h % 4 == 3:
             # one writer object, first a set positioned at one level only (language / set / caption), then a set without
             # any positioning, then the first again: whatever the writer remembers of a document shows in the next one
-            lay = setbuild.rand_layout(rng, False)
+            lay = None
+            while not lay or "origin" not in lay:
+                lay = setbuild.rand_layout(rng, False)
             j = h // 4
             level = ["lang", "set", "caption"][(j // len(setbuild.WRITERS)) % 3]
             a = setbuild.rand_desc(rng, nlang=rng.choice([1, 2]), unbalanced=0.0, absolute=0.0, with_layout=0.0)
@@ -83,7 +86,7 @@ def explore(chk):
             else:
                 a["langs"][0]["caps"][0]["layout"] = lay
             sets = [a, bare]
-            shared = [(setbuild.WRITERS[j % len(setbuild.WRITERS)], rng.choice(OPTS))]
+            shared = [(setbuild.WRITERS[j % len(setbuild.WRITERS)], rng.choice([None, None, {"fit_to_screen": False}, {"video_width": 640, "video_height": 360}]))]
             ops_fixed = [("shared", 0, shared[0][0], shared[0][1], si) for si in (0, 1, 0, 1)]
         elif h % 4 == 1:
             # two sets whose spans take their style from classes of the same names, defined differently in each set; one
@@ -101,6 +104,47 @@ def explore(chk):
                 sets.append(d)
             shared = [(kind, None)]
             ops_fixed = [("fresh", None, kind, None, 0), ("fresh", None, kind, None, 1), ("shared", 0, kind, None, 0), ("shared", 0, kind, None, 1)]
+        elif h % 8 == 6:
+            # captions whose nodes carry several different layouts of their own: the order in which the writer registers
+            # them (region ids, order of <region> elements) must not depend on hashing
+            d = setbuild.rand_desc(rng, nlang=1, unbalanced=0.0, absolute=0.0, with_layout=0.3)
+            for c in d["langs"][0]["caps"]:
+                nodes = []
+                for k_ in range(rng.randint(2, 4)):
+                    if k_:
+                        nodes.append(["B"])
+                    lay = setbuild.rand_layout(rng, False)
+                    nodes += [["S", True, {"italics": True}, lay], ["T", "w%d" % k_, lay], ["S", False, {"italics": True}, lay]]
+                c["nodes"] = nodes
+            sets = [d]
+            kind = ["dfxp", "single", "dfxp", "webvtt"][(h // 8) % 4]
+            shared = [(kind, None)]
+            ops_fixed = [("fresh", None, kind, None, 0), ("shared", 0, kind, None, 0)]
+        elif h % 8 == 2:
+            # the same number on the other axis in the next document, lengths in cells (and px/em/pt), square and non-square
+            # frames: a conversion result must never be taken over from an earlier document
+            u = rng.choice(["c", "c", "px", "em", "pt"])
+            a_, b_ = rng.sample([1, 2, 4, 5, 8, 10], 2)
+            def positioned(x, y):
+                d_ = setbuild.rand_desc(rng, nlang=1, unbalanced=0.0, absolute=0.0, with_layout=0.0)
+                for c in d_["langs"][0]["caps"]:
+                    c["layout"] = {"origin": ["%d%s" % (x, u), "%d%s" % (y, u)], "extent": ["%d%s" % (y, u), "%d%s" % (x, u)]}
+                return d_
+            sets = [positioned(a_, b_), positioned(b_, a_)]
+            kind = ["dfxp", "webvtt", "sami", "single"][(h // 8) % 4]
+            o_ = rng.choice([{"video_width": 400, "video_height": 400}, {"video_width": 640, "video_height": 360}])
+            shared = [(kind, o_)]
+            ops_fixed = [("fresh", None, kind, o_, 0), ("fresh", None, kind, o_, 1), ("shared", 0, kind, o_, 0), ("shared", 0, kind, o_, 1)]
+        elif h % 8 == 4:
+            # document styles and a set-level layout with padding, written with every writer option switched off and on:
+            # the argument must come back untouched whatever branch the writer takes
+            d = setbuild.rand_desc(rng, nlang=rng.choice([1, 2]), unbalanced=0.0, absolute=0.0)
+            d["styles"] = {"p": {"color": "#ffffff"}, "encc": {"lang": "en-US", "font-family": "Arial"}}
+            d["layout"] = {"padding": ["4%", "4%", "10%", "10%"]}
+            sets = [d]
+            kind = setbuild.WRITERS[(h // 8) % len(setbuild.WRITERS)]
+            shared = [(kind, None)]
+            ops_fixed = [("fresh", None, kind, o_, 0) for o_ in ({"relativize": False, "fit_to_screen": False}, {"relativize": False}, {"fit_to_screen": False}, None)]
         else:
             ops_fixed = None
         ops = []
